@@ -31,7 +31,7 @@ var loopVariantExceptions = map[string]string{
 
 func paramNamed(fn *ssa.Function, name string) ssa.Value {
 	for _, p := range fn.Params {
-		if p.Name() == name {
+		if identName(p) == name {
 			return p
 		}
 	}
